@@ -8,7 +8,9 @@ use crate::common::*;
 enum E { Nil, True, False, Va, Num(String), Str(char, String), Name(String), Field(Box<E>, String), Index(Box<E>, Box<E>), Call(Box<E>, Vec<E>), Method(Box<E>, String, Vec<E>), Sugar(Box<E>),
          Un(&'static str, Box<E>), Bin(&'static str, Box<E>, Box<E>), Paren(Box<E>), Table(bool, Vec<F>) }
 #[derive(Clone)]
-enum F { Pos(E), Named(String, E), Key(E, E) }
+enum F { Pos(E), Named(String, E), Key(E, E),
+         /// lines of a table written over several lines: a field with "an empty line precedes it" and the comment behind its comma; a comment line
+         Line(bool, Box<F>, Option<String>), Com(bool, String) }
 enum S { Local(Vec<String>, Vec<E>), Assign(Vec<E>, Vec<E>), Call(E), Do(B), While(E, B), Repeat(B, E), If(E, B, Els),
          NumFor(String, E, E, Option<E>, B), GenFor(Vec<String>, Vec<E>, B), Function(Vec<String>, Option<String>, Vec<String>, bool, B),
          LocalFunction(String, Vec<String>, bool, B), Return(Vec<E>), Break }
@@ -25,7 +27,7 @@ const BINS: &[(&str, u32, bool)] = &[("or", 1, false), ("and", 2, false), ("<", 
     ("..", 8, true), ("+", 9, false), ("-", 9, false), ("*", 10, false), ("/", 10, false), ("%", 10, false), ("^", 12, true)];
 fn binfo(op: &str) -> (u32, bool) { let b = BINS.iter().find(|b| b.0 == op).unwrap(); (b.1, b.2) }
 
-struct G<'a> { rng: &'a mut Rng, loops: usize, noml: usize }
+struct G<'a> { rng: &'a mut Rng, loops: usize, noml: usize, comok: bool, argcom: bool }
 impl<'a> G<'a> {
     fn name(&mut self) -> String { self.rng.pick(NAMES).to_string() }
     fn atom(&mut self, vararg: bool) -> E {
@@ -45,7 +47,7 @@ impl<'a> G<'a> {
     /// otherwise each argument is a table (possibly over several lines) or an expression without such a table inside
     fn args(&mut self, d: usize, va: bool) -> Vec<E> {
         if self.rng.chance(1, 3) {
-            let x = if d > 0 && self.rng.chance(1, 2) { self.table(d - 1, va) } else { self.string() };
+            let x = if d > 0 && self.rng.chance(1, 2) { self.comok = self.argcom; self.table(d - 1, va) } else { self.string() };
             let x = if self.rng.chance(1, 5) { E::Paren(Box::new(x)) } else if self.rng.chance(1, 2) { E::Sugar(Box::new(x)) } else { x };
             return vec![x];
         }
@@ -53,6 +55,7 @@ impl<'a> G<'a> {
         let mut had_ml = false;
         (0..self.rng.below(4)).map(|_| if d > 0 && self.rng.chance(1, 5) {
             if had_ml { self.noml += 1; }
+            self.comok = self.argcom;
             let t = self.table(d - 1, va);
             if had_ml { self.noml -= 1; }
             if matches!(t, E::Table(true, _)) { had_ml = true; }
@@ -109,12 +112,33 @@ impl<'a> G<'a> {
         let n = self.rng.below(4);
         // one table in three has a line break right behind its `{` in the source: the formatter then always writes it over several lines
         let ml = self.noml == 0 && self.rng.chance(1, 3);
-        E::Table(ml, (0..n).map(|_| match self.rng.below(3) {
-            0 => F::Named(self.name(), self.exp(d, va)),
-            1 => F::Key(self.exp(d, va), self.exp(d, va)),
-            _ => F::Pos(self.exp(d, va)),
-        }).collect())
+        // comments inside the table only where the layout around it is regular: the table is the only value of a local / an
+        // assignment / a return, a direct argument of a call statement, or directly the value of a field of such a table
+        // (elsewhere an expression that holds a comment is hung or its surroundings are expanded)
+        let comok = ml && std::mem::replace(&mut self.comok, false);
+        self.comok = false;
+        let mut fs: Vec<F> = vec![];
+        for _ in 0..n {
+            let mut val = |g: &mut Self| -> E { if comok && g.rng.chance(1, 4) { g.comok = true; let t = g.table(d, va); g.comok = false; t } else { g.exp(d, va) } };
+            let f = match self.rng.below(3) {
+                0 => { let n = self.name(); F::Named(n, val(self)) }
+                1 => { let k = self.exp(d, va); F::Key(k, val(self)) }
+                _ => F::Pos(val(self)),
+            };
+            // (a field that starts with a parenthesis the formatter may remove loses the empty line and the comments in front of it
+            // with that parenthesis: none are generated there)
+            let paren = matches!(&f, F::Pos(e) if starts_paren(e));
+            // comments on lines of their own in front of a field
+            if comok && !paren { while self.rng.chance(1, 6) { let b = self.rng.chance(1, 4); let c = self.comment(); fs.push(F::Com(b, c)); } }
+            if ml && self.rng.chance(1, 2) { let b = !paren && self.rng.chance(1, 4); let t = if comok && self.rng.chance(1, 3) { Some(self.comment()) } else { None }; fs.push(F::Line(b, Box::new(f), t)); }
+            else { fs.push(f); }
+        }
+        // comments dangling before the closing brace
+        if comok { while self.rng.chance(1, 8) { let b = self.rng.chance(1, 4); let c = self.comment(); fs.push(F::Com(b, c)); } }
+        E::Table(ml, fs)
     }
+    /// the only value of a local / an assignment / a return: one time in four a table that may hold comments
+    fn sole(&mut self, d: usize, va: bool) -> E { if d > 0 && self.noml == 0 && self.rng.chance(1, 4) { self.comok = true; let t = self.table(d - 1, va); self.comok = false; t } else { self.exp(d, va) } }
     fn exps(&mut self, min: usize, d: usize, va: bool) -> Vec<E> { (0..min + self.rng.below(3)).map(|_| self.exp(d, va)).collect() }
     fn names(&mut self) -> Vec<String> { (0..1 + self.rng.below(2)).map(|_| self.name()).collect() }
     /// a variable: name, or a chain that ends in a field or an index and starts with a name
@@ -130,7 +154,9 @@ impl<'a> G<'a> {
         let f = if self.rng.chance(1, 3) { E::Field(Box::new(n), self.name()) } else { n };
         // one time in five a call of the result of a call: `f "s" "t"`, `f("s"):m()`
         let f = if self.rng.chance(1, 5) { self.noml += 1; let a = self.args(1, va); self.noml -= 1; E::Call(Box::new(f), a) } else { f };
-        if self.rng.chance(1, 3) { E::Method(Box::new(f), self.name(), self.args(2, va)) } else { E::Call(Box::new(f), self.args(2, va)) }
+        // the tables among the arguments of the statement's own call may hold comments
+        self.argcom = true; let a = self.args(2, va); self.argcom = false;
+        if self.rng.chance(1, 3) { E::Method(Box::new(f), self.name(), a) } else { E::Call(Box::new(f), a) }
     }
     fn comment(&mut self) -> String { let n = self.rng.below(1000); match self.rng.below(6) { 0 => String::new(), 1 => format!(" c{} two words", n), 2 => format!("c{}", n), _ => format!(" c{}", n) } }
     fn trivia(&mut self, first: bool) -> Vec<(bool, String)> {
@@ -141,7 +167,7 @@ impl<'a> G<'a> {
     fn block_t(&mut self, depth: usize, va: bool, max: usize, tail_ok: bool) -> B {
         let n = self.rng.below(max + 1);
         let mut stmts: Vec<S> = (0..n).map(|_| self.stmt(depth, va)).collect();
-        if depth > 0 && self.rng.chance(1, 4) { stmts.push(if self.loops > 0 && self.rng.chance(1, 3) { S::Break } else { S::Return(self.exps(0, 2, va)) }); }
+        if depth > 0 && self.rng.chance(1, 4) { stmts.push(if self.loops > 0 && self.rng.chance(1, 3) { S::Break } else { S::Return(if self.rng.chance(1, 4) { vec![self.sole(2, va)] } else { self.exps(0, 2, va) }) }); }
         let mut items = vec![];
         for (i, st) in stmts.into_iter().enumerate() {
             let lead = self.trivia(i == 0);
@@ -157,8 +183,8 @@ impl<'a> G<'a> {
     fn stmt(&mut self, depth: usize, va: bool) -> S {
         let deep = depth >= 3;
         match self.rng.below(if deep { 5 } else { 14 }) {
-            0 | 1 => { let ns = self.names(); let es = if self.rng.chance(1, 4) { vec![] } else { self.exps(1, 2, va) }; S::Local(ns, es) }
-            2 | 3 => { let n = 1 + self.rng.below(2); S::Assign((0..n).map(|_| self.var(va)).collect(), self.exps(1, 2, va)) }
+            0 | 1 => { let ns = self.names(); let es = if self.rng.chance(1, 4) { vec![] } else if self.rng.chance(1, 3) { vec![self.sole(2, va)] } else { self.exps(1, 2, va) }; S::Local(ns, es) }
+            2 | 3 => { let n = 1 + self.rng.below(2); let vs = (0..n).map(|_| self.var(va)).collect(); let es = if self.rng.chance(1, 3) { vec![self.sole(2, va)] } else { self.exps(1, 2, va) }; S::Assign(vs, es) }
             4 => S::Call(self.call_stmt(va)),
             5 => S::Do(self.block(depth + 1, va, 2)),
             6 => { let c = self.exp(2, va); self.loops += 1; let b = self.block(depth + 1, va, 2); self.loops -= 1; S::While(c, b) }
@@ -194,6 +220,9 @@ impl<'a> G<'a> {
 
 // ---- the tree as an S-expression (blanks written `_`, as ml/sexp.ml expects) ----
 fn hx(s: &str) -> String { let h = hex(s.as_bytes()); if h == "#" || h.is_empty() { "#".to_string() } else { h } }
+fn starts_paren(e: &E) -> bool {
+    match e { E::Paren(_) => true, E::Bin(_, l, _) => starts_paren(l), E::Field(p, _) | E::Index(p, _) | E::Call(p, _) | E::Method(p, _, _) => starts_paren(p), _ => false }
+}
 fn sugar(a: &[E]) -> u8 { matches!(a, [E::Sugar(_)]) as u8 }
 fn sx_e(e: &E) -> String {
     match e {
@@ -205,9 +234,14 @@ fn sx_e(e: &E) -> String {
         E::Method(o, m, a) => format!("(method_{}_{}_{}_({}))", sx_e(o), hx(m), sugar(a), a.iter().map(sx_e).collect::<Vec<_>>().join("_")),
         E::Un(u, x) => format!("(un_{}_{})", u, sx_e(x)), E::Bin(b, l, r) => format!("(bin_{}_{}_{})", b, sx_e(l), sx_e(r)),
         E::Paren(x) => format!("(paren_{})", sx_e(x)), E::Sugar(x) => sx_e(x),
-        E::Table(ml, fs) => format!("({}_({}))", if *ml { "tableml" } else { "table" }, fs.iter().map(|f| match f {
-            F::Pos(x) => format!("(fpos_{})", sx_e(x)), F::Named(n, x) => format!("(fnamed_{}_{})", hx(n), sx_e(x)), F::Key(k, x) => format!("(fkey_{}_{})", sx_e(k), sx_e(x)),
-        }).collect::<Vec<_>>().join("_")),
+        E::Table(ml, fs) => format!("({}_({}))", if *ml { "tableml" } else { "table" }, fs.iter().map(sx_f).collect::<Vec<_>>().join("_")),
+    }
+}
+fn sx_f(f: &F) -> String {
+    match f {
+        F::Pos(x) => format!("(fpos_{})", sx_e(x)), F::Named(n, x) => format!("(fnamed_{}_{})", hx(n), sx_e(x)), F::Key(k, x) => format!("(fkey_{}_{})", sx_e(k), sx_e(x)),
+        F::Line(b, f, t) => format!("(fline_{}_{}_({}))", *b as u8, sx_f(f), t.as_ref().map_or(String::new(), |c| hx(c))),
+        F::Com(b, c) => format!("(fcom_{}_{})", *b as u8, hx(c)),
     }
 }
 fn sx_names(v: &[String]) -> String { format!("({})", v.iter().map(|n| hx(n)).collect::<Vec<_>>().join("_")) }
@@ -257,20 +291,47 @@ impl<'a> P<'a> {
             E::Bin(b, l, r) => { self.e(l); self.ws(); self.t(b); self.ws(); self.e(r); }
             E::Paren(x) => { self.t("("); self.bl(); self.e(x); self.bl(); self.t(")"); }
             E::Sugar(x) => self.e(x),
-            E::Table(ml, fs) => {
+            E::Table(false, fs) => {
                 self.t("{"); self.bl();
-                if *ml { self.t("\n"); self.bl(); }
                 for (i, f) in fs.iter().enumerate() {
                     if i > 0 { let sep = if self.rng.chance(1, 4) { ";" } else { "," }; self.t(sep); self.ws(); }
-                    match f {
-                        F::Pos(x) => self.e(x),
-                        F::Named(n, x) => { self.t(n); self.ws(); self.t("="); self.ws(); self.e(x); }
-                        F::Key(k, x) => { self.t("["); self.bl(); self.e(k); self.bl(); self.t("]"); self.ws(); self.t("="); self.ws(); self.e(x); }
-                    }
+                    self.field(f);
                 }
                 if !fs.is_empty() && self.rng.chance(1, 4) { self.t(","); }
                 self.bl(); self.t("}");
             }
+            E::Table(true, fs) => {
+                // the line break right behind the brace; then the lines, each starting on a line of its own when it is (or follows) a comment
+                self.t("{"); self.bl(); self.t("\n");
+                let mut fresh = true;
+                let nfields = fs.iter().filter(|f| !matches!(f, F::Com(_, _))).count();
+                let mut seen = 0;
+                for f in fs.iter() {
+                    let (blank, body, trail) = match f { F::Com(b, c) => (*b, None, Some(c.clone())), F::Line(b, g, t) => (*b, Some(&**g), t.clone()), g => (false, Some(g), None) };
+                    if blank { if !fresh { self.t("\n"); } self.hb(); self.t("\n"); fresh = true; }
+                    match body {
+                        None => { if !fresh { self.t("\n"); } self.hb(); self.t("--"); self.t(trail.as_ref().unwrap()); if self.rng.chance(1, 3) { self.t("  "); } self.t("\n"); fresh = true; }
+                        Some(g) => {
+                            if fresh { self.hb(); } else { self.ws(); }
+                            self.field(g); seen += 1;
+                            let last = seen == nfields;
+                            if !last || self.rng.chance(1, 2) { self.bl(); let sep = if self.rng.chance(1, 4) { ";" } else { "," }; self.t(sep); }
+                            match trail { Some(c) => { self.t(" "); self.hb(); self.t("--"); self.t(&c); if self.rng.chance(1, 3) { self.t(" \t"); } self.t("\n"); fresh = true; } None => { fresh = false; } }
+                        }
+                    }
+                }
+                if fresh { self.hb(); } else { self.ws(); }
+                self.t("}");
+            }
+        }
+    }
+    fn field(&mut self, f: &F) {
+        match f {
+            F::Pos(x) => self.e(x),
+            F::Named(n, x) => { self.t(n); self.ws(); self.t("="); self.ws(); self.e(x); }
+            F::Key(k, x) => { self.t("["); self.bl(); self.e(k); self.bl(); self.t("]"); self.ws(); self.t("="); self.ws(); self.e(x); }
+            F::Line(_, g, _) => { let g = (**g).clone(); self.field(&g); }
+            F::Com(_, _) => {}
         }
     }
     fn names(&mut self, v: &[String]) { self.list(v, |p, n| p.t(n)); }
@@ -359,7 +420,7 @@ pub fn main(args: &[String]) {
     for k in 0..n {
         if k % shards != shard { continue; }
         let mut rng = Rng(seed.wrapping_mul(0x9E3779B97F4A7C15) ^ (k as u64).wrapping_mul(0xD1B54A32D192ED03) ^ 0x10);
-        let prog = { let mut g = G { rng: &mut rng, loops: 0, noml: 0 }; let mut b = g.block_t(0, true, 5, true); if b.items.is_empty() { let s = g.stmt(0, true); b.items.push(Item { lead: vec![], blank: false, s, trail: None }); } b };
+        let prog = { let mut g = G { rng: &mut rng, loops: 0, noml: 0, comok: false, argcom: false }; let mut b = g.block_t(0, true, 5, true); if b.items.is_empty() { let s = g.stmt(0, true); b.items.push(Item { lead: vec![], blank: false, s, trail: None }); } b };
         let tree = sx_b(&prog);
         let src = { let mut p = P { rng: &mut rng, out: String::new() }; p.block(&prog, true); if !p.out.ends_with('\n') && p.rng.chance(3, 4) { p.t("\n"); } p.out };
         if !parses(&src, syntax("Lua51")) { unparsed += 1; println!("UNPARSED g{} {}", k, hex(src.as_bytes())); continue; }
